@@ -41,6 +41,8 @@ REAL = ["synkit.CRN.Topo.wl_canon.WLCanonicalizer / wl_canonical (sound checks o
         "synkit.CRN.Topo.canon.CRNCanonicalizer (_init_part/_sig/_refine/_label/_search/_canon, summary/graph/orbits)",
         "synkit.CRN.Topo.automorphism.CRNAutomorphism.summary / has_nontrivial_automorphism / detect_automorphisms",
         "synkit.CRN.Hypergraph.backend._CRNGraphBackend + conversion.hypergraph_to_bipartite / hypergraph_to_species_graph",
+        "synkit.CRN.Topo.automorphism.CRNAutomorphism.iter (lazy enumeration, also suspended while another call runs on the same analyser)",
+        "a second interpreter (dsim/peer.py, other PYTHONHASHSEED, no seams) running the real CRNCanonicalizer on request: stored canonical forms must agree across processes",
         "networkx DiGraphMatcher (VF2) as used by CRNAutomorphism"]
 STUB = ["builtin id() inside synkit modules -> SimAllocator (temporaries: address reusable immediately, policy never/always/coin)",
         "time module object of synkit.CRN.Topo.canon and .automorphism -> SimClock (tick per read, jumps fwd/back, freezes)"]
@@ -55,7 +57,9 @@ RULE = ("per run: a random network (2-6 species, 1-5 reactions, coefficients 1-3
         "an isomorphic twin (species renamed, reactions reordered, ids regenerated) and a one-edit neighbour; configuration "
         "include_rule x include_stoich x integer_ids; op list of canon / aut calls with timeout in {None,0,0.5,5,1e9} interleaved "
         "with fault ops: allocator policy (never|always|coin, lifo|fifo|rand), clock tick (0..2 s/read), jumps (+-), freezes, "
-        "scheduled to land inside the calls. Non-trivial = >=1 fault fired and >=1 probe hit; distinct = distinct event digests")
+        "scheduled to land inside the calls; rare modes: regular-graph zoo (Frucht, Petersen, cube, prism, two triangles) as 6-12 species "
+        "networks, 1440-automorphism families, edge_attr_keys re-assigned on a used canonicaliser, two consumers interleaved on one analyser, "
+        "canonical form cross-checked with the peer interpreter. Non-trivial = >=1 fault fired and >=1 probe hit; distinct = distinct event digests")
 
 
 # ---------------------------------------------------------------------------
